@@ -151,14 +151,14 @@ def run(ctx):
         p = parsed[cid]
         traces.append({"id": cid, "opt": o["opt"], "req": {"uid": o["req"]["uid"], "gid": o["req"]["gid"]},
                        "child": p["child"], "parent": p["parent"]})
-    if len(traces) < len(sobs) * 0.9:
-        raise Inconclusive("strace logs yielded %d traces for %d launches" % (len(traces), len(sobs)))
+    trace_gap = len(traces) < len(sobs) * 0.9
     cfg = open(os.path.join(os.path.dirname(os.path.dirname(os.path.abspath(__file__))), "spec", "Launch_Trace.cfg")).read()
     cfg = cfg.replace('FailMode = "none"', 'FailMode = "all"')
     j, t = lc.par(lambda: ctx.tlc("Launch_JudgeC07", files={"c07obs.ndjson": allobs, "c07cobs.ndjson": cobs}, timeout=900, count=False),
                   lambda: ctx.tlc("Launch_Trace", cfg=cfg, files={"ltraces.ndjson": traces}, timeout=1200, dfs=True) if traces else None)
     ctx.tlc_ok("Launch_JudgeC07", j)
     drift = 0
+    setups = []
     for fn, src, kind in (("c07bad.ndjson", allobs, "forkexec"), ("c07cbad.ndjson", cobs, "container")):
         for b in ctx.read_ndjson(os.path.join(j.dir, fn)):
             o = src[b["i"] - 1]
@@ -171,7 +171,8 @@ def run(ctx):
                 key = "container:%s:%s:%s" % (b["what"], o["mode"], o["fail"])
                 case = o
             if b["j"] == "setup":
-                raise Inconclusive("case could not be arranged (%s): %s" % (b["what"], where))
+                setups.append("case could not be arranged (%s): %s" % (b["what"], where))
+                continue
             if b["j"] == "drift":
                 drift += 1
                 if drift <= 8:
@@ -179,11 +180,16 @@ def run(ctx):
                 continue
             ctx.violation(key, "C07 clause '%s' violated: %s" % (b["what"], where), case)
 
+    # set-up trouble makes the run inconclusive unless a real breach was observed anyway
+    if setups and not ctx.violations:
+        raise Inconclusive("; ".join(setups[:5]))
+    if trace_gap and not ctx.violations:
+        raise Inconclusive("strace logs yielded %d traces for %d launches" % (len(traces), len(sobs)))
     if traces:
         if t.invariant:
             ctx.note("DRIFT: a step trace leads the model to a state violating %s" % t.invariant)
             drift += 1
-        elif not t.no_error:
+        elif not t.no_error and not ctx.violations:
             raise Inconclusive("Launch_Trace did not finish cleanly:\n" + t.tail(40))
         tb = ctx.read_ndjson(os.path.join(t.dir, "lbad.ndjson"))
         for b in tb:
